@@ -6,6 +6,7 @@ plan: the set of call indices that fail); the same histories are evaluated by co
 inside coqc and compared step by step (outcome, every recorded service, OS state, the complete call
 log).  The oracle below states the property directly on what the implementation did."""
 import itertools
+import os
 import re
 from vpc.core import cN, cbool, clist, copt, cstr
 
@@ -16,9 +17,10 @@ THEOREMS = ["running_has_live_pid", "refresh_syncs", "stop_leaves_nothing", "rem
 RULE = ("histories = lists of add / start / stop / remove / upgrade / refresh / kill over the services added so "
         "far, each with a fault plan (set of call indices that fail); quick: every history of <= 3 operations "
         "over the 13-operation alphabet (2 services) with every 0- and 1-fault placement, a seeded sample of "
-        "2-fault placements, plus seeded long histories (to 12 ops, option variants: port ranges, metrics "
+        "2-fault placements, 201 directed port-boundary histories, plus seeded long histories (to 12 ops, option variants: port ranges, metrics "
         "server, genesis, keep-directories, forced / not-started / missing-binary upgrades, dynamic start-up "
-        "delay); thorough: every history of <= 4 operations with every 0/1/2-fault placement; a case is "
+        "delay); thorough: every history of <= 4 operations with every 0/1-fault placement, every 2-fault placement of "
+        "the histories of <= 3 operations and 20000 sampled 2-fault placements of those of 4; a case is "
         "distinct/non-trivial by (sequence of (op kind, outcome), number of faults that hit a call)")
 ASSUMPTIONS = [
     "the simulated OS is truthful: start of an unknown unit fails, uninstall of an unknown unit reports "
@@ -31,6 +33,11 @@ ASSUMPTIONS = [
     "established by execution after every step; the Coq theorem covers the model's field encoding",
     "refresh_node_registry(full_refresh = true) needs a live gRPC endpoint and is not driven",
 ]
+
+# the harness creates a scratch directory tree per history: keep it on tmpfs when there is one
+ENV = {"USER": "root"}
+if os.path.isdir("/dev/shm") and os.access("/dev/shm", os.W_OK):
+    ENV["TMPDIR"] = "/dev/shm"
 
 KINDS = {"port": 0, "install": 1, "pid": 2, "start": 3, "stop": 4, "uninstall": 5, "wait": 6,
          "rpc_connected": 7, "rpc_node_info": 8, "rpc_network_info": 9}
@@ -367,7 +374,7 @@ class Runner:
         self.ctx.pipeline(cases, self.binary, self._oracle, model_term, IMPORTS, nontrivial=nontrivial, show=show,
                           relation="real add_node/ServiceManager/refresh_node_registry + simulated OS == "
                                    "SvcLifecycle.step, step by step (outcome, registry, OS, call log)",
-                          shard_size=400, env_extra={"USER": "root"})
+                          shard_size=400, env_extra=ENV)
 
 
 def nontrivial(c, o):
@@ -435,7 +442,13 @@ def run(ctx):
     singles = placements(r, base, rng)
     nid = tag(singles, nid)
     r.run(singles)
-    doubles = second_placements(r, singles, rng, None if thorough else 1500)
+    if thorough:
+        # every 2-fault placement of every history of <= 3 operations, and a large sample for length 4
+        short = [c for c in singles if len(c["ops"]) <= 3]
+        doubles = second_placements(r, short, rng, None) + \
+            second_placements(r, [c for c in singles if len(c["ops"]) > 3], rng, 20000)
+    else:
+        doubles = second_placements(r, singles, rng, 1500)
     nid = tag(doubles, nid)
     r.run(doubles)
     dirs = directed()
